@@ -619,17 +619,17 @@ func c10query(c *an.Ctx) {
 				nparse++
 				call := in.(*ssa.Call)
 				_, fail := an.ErrEdgesPhi(an.ResultN(call, 1)[0])
-				q := &an.PathQ{Fn: fn, StartEdges: fail, Sink: sinkSuccessReturn}
+				q := &an.PathQ{Fn: fn, StartEdges: fail, Sink: sinkSuccessReturn, AllAlias: true}
 				w, f := q.Find()
 				bad400 := false
 				if !f && len(fail) > 0 {
 					// every return reachable from the failure edge carries a 400
-					q2 := &an.PathQ{Fn: fn, StartEdges: fail, Sink: func(x ssa.Instruction, _ *an.PathState) bool {
+					q2 := &an.PathQ{Fn: fn, StartEdges: fail, AllAlias: true, Sink: func(x ssa.Instruction, st *an.PathState) bool {
 						r, ok := x.(*ssa.Return)
 						if !ok || len(r.Results) == 0 {
 							return false
 						}
-						code, _, ok := httpErrOf(an.Resolve(r.Results[len(r.Results)-1]))
+						code, _, ok := httpErrOf(an.Resolve(st.Selected(r.Results[len(r.Results)-1])))
 						return !ok || code != 400
 					}}
 					_, bad400 = q2.Find()
